@@ -42,11 +42,12 @@ func UpperUnderscore(ident string) string {
 
 // ExprBaseName is the base name of a printed expression or plural value: the
 // last key of a data reference that ends in a key, the variable name of a bare
-// reference, the name of a global; every other expression gets the fallback.
+// reference, the last segment of a global's name; every other expression gets the fallback.
 func ExprBaseName(e *Expr, fallback string) string {
 	switch e.Op {
 	case "global":
-		return UpperUnderscore(e.Name)
+		// the part after the last dot
+		return UpperUnderscore(e.Name[strings.LastIndex(e.Name, ".")+1:])
 	case "ref":
 		if len(e.Access) == 0 {
 			return UpperUnderscore(e.Name)
